@@ -285,6 +285,9 @@ def render_exp(e, t=None, prog=None):
         et = elem(t) if t else None
         return "[" + ", ".join(render_exp(x, et, prog) for x in e["es"]) + "]"
     if k == "objx":
+        if t and t.get("m") == 1 and not t.get("a"):
+            # a literal for a typed map: quoted keys
+            return "{" + ", ".join("%s: %s" % (json.dumps(f["n"]), render_exp(f["e"], None, prog)) for f in e["fs"]) + "}"
         return "{" + ", ".join("%s: %s" % (f["n"], render_exp(f["e"], None, prog)) for f in e["fs"]) + "}"
     if k == "split":
         return "split " + render_exp(e["e"], None, prog)
